@@ -227,7 +227,7 @@ def run(tier):
     try:
         p = os.path.join(d, "t.ndjson")
         open(p, "w").write(vf.ndjson([{k: o[k] for k in ("id", "destructive", "additive", "temponly", "groups", "diags", "failed", "err")} for o in obs]))
-        viols, events, _ = vf.monitor_trace("LintMonitor", "LintMonitor.cfg", p)
+        viols, events, _ = vf.monitor_trace("LintMonitor", "LintMonitor.cfg", p, independent=True)
     finally:
         vf.rm(d)
     per = {}
